@@ -1839,6 +1839,12 @@ class SpaceUpdater(SharedSpaceOperations):
         for b in basenodes:
             self._graph.remove_edge(b, node)
 
+        # Removing a base can leave a sub space without a C3 MRO:
+        # check before anything is changed
+        for n in itertools.chain({node}, nx.descendants(
+                self._graph, node)):
+            self._graph.get_mro(n)
+
         self._instructions.append(
             Instruction(self._update_derived_space, (node,))
         )
@@ -1864,14 +1870,21 @@ class SpaceUpdater(SharedSpaceOperations):
             self._remove_hook(self._graph, child)
 
         # Sub spaces of the space and of the spaces in its tree
+        subs = []
         for _, v in nx.edge_bfs(self.manager._graph, nodes_removed):
             if v in nodes_removed:
                 continue    # a sub space inside the deleted tree
+            subs.append(v)
             self._instructions.append(
                 Instruction(self._update_derived_space, (v,))
             )
 
         self._graph.remove_nodes_from(nodes_removed)
+
+        # Losing a base can leave a sub space without a C3 MRO:
+        # check before anything is changed
+        for v in subs:
+            self._graph.get_mro(v)
 
         self._instructions.execute()
         self._update_manager()
